@@ -1,6 +1,6 @@
 """C07 — simplification portfolios preserve the meaning of every formula."""
 from ..facts import AnalysisGap, callee, callee_generic, local_id_of, local_of, strip, walk
-from .. import flow, hq, rw, sym
+from .. import collect, flow, hq, rw, sym
 
 EXPLANATION = (
     "RW-1: every portfolio member whose body is a match `pattern => template` over formula constructors is extracted as a set of propositional "
@@ -423,4 +423,10 @@ def rule_fresh_names(ctx):
     ctx.add("FRESH", "classic-chooser:taken-is-formula-variables", ok, ctx.site(rh), "the names to avoid are the variables of the formula in which the replacement happens: %s" % [hq.render(c["args"][0]) for c in cs])
 
 
-RULES = [rule_rw1, rule_rw3, rule_rw4, rule_rw5, rule_comparisons, rule_strategy, rule_apply, rule_equality_predicate, rule_subsort_table, rule_use_sites, rule_fresh_names]
+def rule_variable_leaves(ctx):
+    """the rewrites decide on free_variables() / variables() (orphaned binders, capture, scope extension): a variable occurrence must be
+    collected under its own sort, else a bound `X$s` is not found in its body and the binder is dropped"""
+    collect.check_variable_leaves(ctx, "COLLECT", ctx.facts)
+
+
+RULES = [rule_variable_leaves, rule_rw1, rule_rw3, rule_rw4, rule_rw5, rule_comparisons, rule_strategy, rule_apply, rule_equality_predicate, rule_subsort_table, rule_use_sites, rule_fresh_names]
